@@ -62,7 +62,8 @@ NodesOf(i, d, parent) ==
 \* chain link of template i: the next template, or a named special target for the last
 Parent(i, last) ==
   IF i < Len(chain) THEN TName(i + 1)
-  ELSE last           \* "" (root parent), "t1" (cycle), "nosuch" (dangling)
+  ELSE last           \* "" (root parent), "t1" (cycle through the leaf), "nosuch" (dangling), the last template itself or the
+                      \* second one (a cycle the leaf leads into without being part of it)
 
 Templates(last) ==
   [i \in DOMAIN chain |-> <<TName(i), NodesOf(i, chain[i], Parent(i, last))>>]
@@ -78,6 +79,11 @@ Extra ==
      <<"seq", <<Include(S("u1"), "none", NilE, "", <<>>), NText("|"), Include(S("u2"), "none", NilE, "", <<>>), NText("|"),
                 Block("a", FALSE, <<NText("own-a")>>), RenderT(S("u2"), "none", NilE, "", <<>>)>>>>,
      \* a root parent that includes an extending partial between its own blocks
+     \* block.super evaluated more than once in one rendering of a block, over a parent definition that changes what
+     \* it prints (a counter, a cycle): every evaluation renders the parent definition again (two and three levels)
+     <<"s0", <<Extends("s1"), Block("a", FALSE, <<NText("<s0>"), NOut(P(VP("block", "super"))), NText("+"), NOut(P(VP("block", "super"))), NText("</s0>")>>)>>>>,
+     <<"s1", <<Extends("s2"), Block("a", FALSE, <<NText("<s1>"), NOut(P(VP("block", "super"))), NOut(P(VP("block", "super"))), NText("</s1>")>>)>>>>,
+     <<"s2", <<NText("{s:"), Block("a", FALSE, <<Incr("c"), Cycle("", <<S("x"), S("y"), S("z")>>, "|x,y,z")>>), Incr("c"), NText("}")>>>>,
      <<"mix1", <<Extends("mix2"), Block("a", FALSE, <<NText("<mixA>")>>), Block("b", FALSE, <<NText("<mixB>")>>)>>>>,
      <<"mix2", <<NText("M["), Block("a", FALSE, <<NText("a0")>>), NText("|"), Include(S("u1"), "none", NilE, "", <<>>),
                  NText("|"), Block("b", FALSE, <<NText("b0")>>), NText("]")>>>> >>
@@ -145,6 +151,9 @@ Rejected ==
   \* (a lone template with a duplicate block name is not a chain: it just renders)
   (done /\ ~WellFormed /\ (Len(chain) > 1 \/ chain[1].bad # "dup")) => ~Result("t1", "").ok /\ Result("t1", "").err \in {"TemplateInheritanceError", "RequiredBlockError", "UNSPEC"}
 Circular == done => Result("t1", "t1").err \in {"TemplateInheritanceError", "UNSPEC"}
+\* the leaf leads into a cycle it is not part of: t1 -> .. -> tk -> tk, t1 -> t2 -> .. -> tk -> t2
+InnerTargets == IF Len(chain) >= 2 THEN {TName(Len(chain)), "t2"} ELSE {}
+CircularInner == done => \A tgt \in InnerTargets : Result("t1", tgt).err \in {"TemplateInheritanceError", "UNSPEC"}
 
 Emit(main, last) ==
   LET r == Result(main, last) IN
@@ -156,5 +165,7 @@ Emit(main, last) ==
 
 Export ==
   done => /\ Emit("t1", "") /\ Emit("inc", "") /\ Emit("ren", "")
+          /\ (\A tgt \in InnerTargets : Emit("t1", tgt) /\ Emit("inc", tgt))
+          /\ (Len(chain) = 1 => (Emit("s1", "") /\ Emit("s0", "")))
           /\ (Len(chain) <= 2 => (Emit("t1", "t1") /\ Emit("t1", "nosuch") /\ Emit("mix1", "") /\ Emit("u1", "") /\ Emit("seq", "")))
 =============================================================================
